@@ -1,10 +1,17 @@
 import PlumpyModel.PM.Proof3
+import PlumpyModel.PM.Proof12
 import PlumpyModel.Status.Model
 /-!
 # C05 — pause/play is transparent: nothing runs while paused
 
 Model: `PMF`.  Every activation of a step function or continuation is logged in `Cfg.trace` together with the value of
 `paused` at the moment it starts.
+
+Transparency itself ("the executed steps, the context and the final result are those of the uninterrupted run") is proved
+below as a simulation (`C05_transparent_partial` and its corollaries; helper lemmas in `PM/Proof12.lean`) for histories of
+ticks, pause and play requests placed anywhere, and wake-up requests (`resume`, completion of an awaited future, its
+done-callback) placed at moments at which no pause is in effect (one may be requested).  The unrestricted statement
+is `C05_transparent_full`; the interleavings it adds are decided by the Python monitor `c05-transparent` only.
 -/
 namespace PMF
 
@@ -79,6 +86,139 @@ theorem C05_play_cancels_pending_pause (c : Cfg) (hp : c.paused = none) :
   · rename_i hq
     exact ⟨hq, by intro i hi; rw [hq] at hi; cases hi⟩
 
+/-! ### transparency as a simulation
+
+`unpaused P c evs` is the *reference history* of a history `evs` with pauses started in `c`: every `pause` and `play` is
+dropped, and so is every `tick` that finds the stepping task suspended on a pause future (`evImage`).  `Sim P c d` relates a
+configuration `c` of the run with pauses to a configuration `d` of the reference run; it is a disjunction of three phases:
+
+* `InStep`: both runs are at the same point of the same step (same state object up to the index of the wait future, same
+  trace, context, process future, logs, scheduled callbacks, stepping flag and program counter); a pause may have been
+  requested but has not taken effect;
+* `QW`: as before, but the pause request hit a pending wait: the run with pauses has interrupted its wait future and will
+  re-arm the wait at its next tick;
+* `Lag`: the run with pauses is suspended on a pause future, and the reference run is what the loop of
+  `step_until_terminated` makes of that very configuration (it is ahead by the steps the other one still has to run). -/
+
+/-- **transparency (partial): the run with pauses is simulated by the run of its reference history.**
+For every program, every number of awaited futures and every history `evs` consisting of ticks, `pause` and `play` requests
+at arbitrary positions, and `resume` / `complete` / awaitable-done / `call_soon` / non-raising-callback events at quiet
+positions (`quiet`: the stepping task is
+not suspended on a pause future, and the current wait was not interrupted by a pause request that the stepping task has
+still to notice; a pause may be requested but not yet in effect) — `admissible`; no kill, fail, cancel, failing callback —, the
+configuration reached by `evs` and the configuration reached by the reference history `unpaused … evs` (no pause, no play,
+fewer ticks) are related by `Sim` — provided no tick of the reference run exhausts the fuel of the model's step loop
+(`fuelOk`: the real code would not terminate there).
+
+Missing with respect to `C05_transparent_full`: wake-up requests that arrive while the process is held by a pause (or
+released by play but the stepping task not yet woken), or between a pause request that interrupted a pending wait and the
+next tick; histories with kill / fail / cancel / a failing scheduled callback. -/
+theorem C05_transparent_partial (P : Prog) (nf : Nat) (evs : List Ev)
+    (hadm : admissible P (init nf) evs = true)
+    (hfuel : fuelOk P (init nf) (unpaused P (init nf) evs) = true) :
+    Sim P (run P (init nf) evs) (run P (init nf) (unpaused P (init nf) evs)) :=
+  run_sim P evs _ _ (sim_init P nf) (invP_init nf) (inv_init nf) hadm hfuel
+
+/-- **same steps, same context, same result (partial)**: under the hypotheses of `C05_transparent_partial`, if the run with
+pauses has terminated then the run without any pause or play request has terminated in the *same state object* (result and
+success flag, or exception, or killed), having executed the same sequence of step functions with the same arguments and
+keyword arguments (none of them while paused, on either side), with the same context, the same process future, the same log
+of entered states, the same cleanups and — apart from the paused/played notifications themselves — the same listener
+notifications. -/
+theorem C05_same_result_partial (P : Prog) (nf : Nat) (evs : List Ev)
+    (hadm : admissible P (init nf) evs = true)
+    (hfuel : fuelOk P (init nf) (unpaused P (init nf) evs) = true)
+    (hterm : terminal (run P (init nf) evs).st.label = true) :
+    (run P (init nf) (unpaused P (init nf) evs)).st = (run P (init nf) evs).st ∧
+    (run P (init nf) (unpaused P (init nf) evs)).trace = (run P (init nf) evs).trace ∧
+    (run P (init nf) (unpaused P (init nf) evs)).ctx = (run P (init nf) evs).ctx ∧
+    (run P (init nf) (unpaused P (init nf) evs)).fut = (run P (init nf) evs).fut ∧
+    (run P (init nf) (unpaused P (init nf) evs)).entered = (run P (init nf) evs).entered ∧
+    (run P (init nf) (unpaused P (init nf) evs)).cleanups = (run P (init nf) evs).cleanups ∧
+    (run P (init nf) (unpaused P (init nf) evs)).notif.filter notPP = (run P (init nf) evs).notif.filter notPP ∧
+    (∀ a ∈ (run P (init nf) evs).trace, a.paused = false) := by
+  obtain ⟨h1, h2⟩ := (C05_transparent_partial P nf evs hadm hfuel).of_terminal hterm
+  obtain ⟨g1, g2, g3, g4, g5, g6, g7, g8, g9, g10, g11, g12, g13, g14, g15⟩ := sh_fields h2
+  exact ⟨h1, g12, g9, g2, g11, g5, g14, C05_nothing_runs_while_paused P nf evs⟩
+
+/-- **at every quiet moment both runs are at the same point (partial)**: under the same hypotheses, whenever the stepping
+task of the run with pauses is not suspended on a pause future and its current wait is not interrupted (in particular:
+before the first pause takes effect, and after a play once the stepping task has been woken), the reference run is in the
+same state (up to the index of the wait future), with the same trace, context, stepping flag, scheduled callbacks and
+awaited futures. -/
+theorem C05_same_point_when_quiet_partial (P : Prog) (nf : Nat) (evs : List Ev)
+    (hadm : admissible P (init nf) evs = true)
+    (hfuel : fuelOk P (init nf) (unpaused P (init nf) evs) = true)
+    (hq : quiet (run P (init nf) evs) = true) :
+    SSim (run P (init nf) evs).st (run P (init nf) (unpaused P (init nf) evs)).st ∧
+    (run P (init nf) (unpaused P (init nf) evs)).trace = (run P (init nf) evs).trace ∧
+    (run P (init nf) (unpaused P (init nf) evs)).ctx = (run P (init nf) evs).ctx ∧
+    (run P (init nf) (unpaused P (init nf) evs)).stepping = (run P (init nf) evs).stepping ∧
+    (run P (init nf) (unpaused P (init nf) evs)).ready = (run P (init nf) evs).ready ∧
+    (run P (init nf) (unpaused P (init nf) evs)).efs = (run P (init nf) evs).efs := by
+  obtain ⟨h1, h2⟩ := (C05_transparent_partial P nf evs hadm hfuel).at_quiet hq
+  obtain ⟨g1, g2, g3, g4, g5, g6, g7, g8, g9, g10, g11, g12, g13, g14, g15⟩ := sh_fields h2
+  exact ⟨h1, g12, g9, g1, g10, g6⟩
+
+/-- **the run with pauses is never ahead and never out of order (partial)**: under the same hypotheses, at *every* moment of
+the history the steps executed so far by the run with pauses (functions, arguments, keyword arguments, newest first) are the
+older part of what the reference run has executed: pausing only delays steps, it neither adds, nor drops, nor reorders
+any (and by `C05_same_result_partial` nothing is missing at termination). -/
+theorem C05_never_ahead_partial (P : Prog) (nf : Nat) (evs : List Ev)
+    (hadm : admissible P (init nf) evs = true)
+    (hfuel : fuelOk P (init nf) (unpaused P (init nf) evs) = true) :
+    ∃ later, (run P (init nf) (unpaused P (init nf) evs)).trace = later ++ (run P (init nf) evs).trace :=
+  (C05_transparent_partial P nf evs hadm hfuel).never_ahead
+
+/-- **the reference history is the history without its pause and play requests and without some of its ticks**: it is a
+sublist of the erasure `erasePP evs`, it contains no pause and no play, and its events other than ticks are exactly those
+of `erasePP evs`, in the same order. -/
+theorem C05_reference_history_is_erasure (P : Prog) (c : Cfg) (evs : List Ev) :
+    (unpaused P c evs).Sublist (erasePP evs) ∧
+    (∀ e ∈ unpaused P c evs, e ≠ .pause ∧ e ≠ .play) ∧
+    (unpaused P c evs).filter (fun e => !isTick e) = (erasePP evs).filter (fun e => !isTick e) :=
+  ⟨unpaused_sublist P evs c, unpaused_no_pp P evs c, unpaused_nonticks P evs c⟩
+
+/-! the unrestricted statement (not proved): wake-up requests may arrive at any moment at which the run with pauses
+accepts them, also while a pause is requested or in effect -/
+
+/-- a request of the uninterrupted run that is effective in the run with pauses: a `resume` arrives while WAITING on a wait
+that has no outcome yet, an awaitable-done callback runs when it is scheduled -/
+def evAllowedFull (c : Cfg) : Ev → Bool
+  | .tick => true
+  | .pause => true
+  | .play => true
+  | .resume _ =>
+      match c.st with
+      | .waiting _ wf wk _ =>
+          match c.wfs[wf]? with
+          | some .pending => true
+          | some (.interrupted _) => wk.isNone
+          | _ => false
+      | _ => false
+  | .complete _ _ => true
+  | .tickCb (.adone f) => c.ready.contains (.adone f)
+  | _ => false
+
+def admissibleFull (P : Prog) : Cfg → List Ev → Bool
+  | _, [] => true
+  | c, e :: es => evAllowedFull c e && admissibleFull P (step P c e).1 es
+
+/-- **transparency, full statement** (not proved; `C05_transparent_partial` / `C05_same_result_partial` prove it for the
+histories in which the wake-up requests arrive at quiet moments, with the reference history computed by `unpaused`):
+for every history of ticks, pause/play requests and effective wake-up requests there is a history without pause and play,
+with the same requests other than ticks, that ends in the same terminal state with the same trace and context.  For wake-ups
+that arrive while the run with pauses is held the reference history may have to deliver them later relative to its own
+ticks, hence a permutation instead of an erasure. -/
+def C05_transparent_full : Prop :=
+  ∀ (P : Prog) (nf : Nat) (evs : List Ev), admissibleFull P (init nf) evs = true →
+    ∃ evs' : List Ev, (∀ e ∈ evs', e ≠ .pause ∧ e ≠ .play) ∧
+      (evs'.filter (fun e => !isTick e)).Perm ((erasePP evs).filter (fun e => !isTick e)) ∧
+      (fuelOk P (init nf) evs' = true → terminal (run P (init nf) evs).st.label = true →
+        (run P (init nf) evs').st = (run P (init nf) evs).st ∧
+        (run P (init nf) evs').trace = (run P (init nf) evs).trace ∧
+        (run P (init nf) evs').ctx = (run P (init nf) evs).ctx)
+
 -- non-vacuity: a pause takes effect at the step boundary, the continuation only runs after play
 section
 private def two : Prog := fun fn _ _ _ => if fn = 0 then ⟨1, .ret (.cont 1 [] [])⟩ else ⟨0, .ret (.stop none true)⟩
@@ -86,6 +226,49 @@ example : (run two (init 0) [.tick, .pause, .tick, .tick, .tick]).trace.length =
 example : (run two (init 0) [.tick, .pause, .tick, .play, .tick]).trace.length = 2 := by decide +kernel
 end
 
+
+-- non-vacuity of the transparency theorems: an asynchronous step that waits, a continuation taking the resume value, an
+-- asynchronous last step; pauses requested inside the asynchronous step, on the pending wait (retracted by play), after the
+-- wake-up was delivered, twice in a row while held, and during the last step; 21 events against 7 in the reference history
+section
+private def wt : Prog := fun fn args _ _ =>
+  match fn with
+  | 0 => ⟨1, .ret (.wait 1)⟩
+  | 1 => ⟨0, .ret (.cont 2 args [(1, 4)])⟩
+  | _ => ⟨1, .ret (.stop args.head? true)⟩
+private def wtHist : List Ev :=
+  [.tick, .pause, .tick, .tick, .play, .tick, .pause, .play, .tick, .resume (some 7), .pause, .tick, .play, .pause, .tick,
+   .play, .tick, .pause, .tick, .play, .tick]
+example : admissible wt (init 0) wtHist = true := by decide +kernel
+example : unpaused wt (init 0) wtHist = [.tick, .tick, .tick, .resume (some 7), .tick, .tick, .tick] := by decide +kernel
+example : fuelOk wt (init 0) (unpaused wt (init 0) wtHist) = true := by decide +kernel
+example : (run wt (init 0) wtHist).st = .finished (some 7) true := by decide +kernel
+example : (run wt (init 0) wtHist).trace.length = 3 := by decide +kernel
+example : ((run wt (init 0) wtHist).notif.filter (fun n => !notPP n)).length = 8 := by decide +kernel
+example : (run wt (init 0) (unpaused wt (init 0) wtHist)).st = .finished (some 7) true := by decide +kernel
+-- a workchain-style wait on an external future whose result lands in the context, with a pause held across the completion
+private def wc : Prog := fun fn _ _ ctx =>
+  match fn with
+  | 0 => ⟨0, .ret (.waitOn 1 [(0, 5)])⟩
+  | _ => ⟨0, .ret (.stop ((ctx.find? (·.1 = 5)).map (·.2)) true)⟩
+private def wcHist : List Ev :=
+  [.pause, .tick, .tick, .play, .tick, .complete 0 (.result 3), .tickCb (.adone 0), .pause, .tick, .tick, .play, .tick]
+example : admissible wc (init 1) wcHist = true := by decide +kernel
+example : fuelOk wc (init 1) (unpaused wc (init 1) wcHist) = true := by decide +kernel
+example : (run wc (init 1) wcHist).st = .finished (some 3) true := by decide +kernel
+example : (run wc (init 1) wcHist).ctx = [(5, 3)] := by decide +kernel
+-- the awaited future completes while a pause is requested but not yet in effect (inside the asynchronous first step)
+private def wc2 : Prog := fun fn _ _ ctx =>
+  match fn with
+  | 0 => ⟨1, .ret (.waitOn 1 [(0, 5)])⟩
+  | _ => ⟨0, .ret (.stop ((ctx.find? (·.1 = 5)).map (·.2)) true)⟩
+private def wc2Hist : List Ev :=
+  [.tick, .pause, .complete 0 (.result 3), .tick, .play, .tick, .tickCb (.adone 0), .tick]
+example : admissible wc2 (init 1) wc2Hist = true := by decide +kernel
+example : unpaused wc2 (init 1) wc2Hist = [.tick, .complete 0 (.result 3), .tick, .tickCb (.adone 0), .tick] := by decide +kernel
+example : fuelOk wc2 (init 1) (unpaused wc2 (init 1) wc2Hist) = true := by decide +kernel
+example : (run wc2 (init 1) wc2Hist).st = .finished (some 3) true := by decide +kernel
+end
 end PMF
 
 /-! ### the status message (model `StatusM`: `set_status`, `on_paused`, `on_playing`) -/
